@@ -2,15 +2,20 @@
 Require Export Verif.Model.Gen Verif.Model.GenMon.
 Open Scope N_scope.
 
-(* program, return value, consumer schedule, the implementation's observations *)
-Inductive c13case := K13 (ops : list op) (ret : N) (s : schedule) (impl : list observation).
+(* how the generator was consumed (raw Stream, .into_yielded(), .into_complete()), program,
+   return value, the consumer schedule that was executed, the implementation's observations *)
+Inductive c13case := K13 (md : mode) (ops : list op) (ret : N) (s : schedule) (impl : list observation).
 
+(* code 2: the implementation's observations violate the executable monitor of
+           order / exactly-once / back-pressure / no-lost-wake-up (raw stream only:
+           the wrappers merge several inner polls into one)
+   code 1: the observation lists differ *)
 Definition check_c13 (c : c13case) : N :=
   match c with
-  | K13 ops ret s impl =>
+  | K13 md ops ret s impl =>
       let p := {| p_ops := ops; p_ret := ret |} in
-      if negb (c13_monitor p impl) then 2
-      else if negb (obs_list_eqb (run p s) impl) then 1
+      if (match md with MRaw => negb (c13_monitor p impl) | _ => false end) then 2
+      else if negb (obs_list_eqb (run_mode md p s) impl) then 1
       else 0
   end.
 
